@@ -355,11 +355,13 @@ func (l pyList) Operator(operator Operator, operand pyObject) pyObject {
 		l2, ok := operand.(pyList)
 		if !ok {
 			if l2, ok := operand.(pyFrozenList); ok {
-				return slices.Clip(append(l, l2.pyList...))
+				return slices.Clip(slices.Concat(l, l2.pyList))
 			}
 			panic("Cannot add list and " + operand.Type())
 		}
-		return slices.Clip(append(l, l2...))
+		// N.B. must always allocate; append(l, l2...) hands back l itself when l2 is empty
+		//      (and writes into l's spare capacity when it has any).
+		return slices.Clip(slices.Concat(l, l2))
 	case In, NotIn:
 		for _, item := range l {
 			if item == operand {
